@@ -392,7 +392,7 @@ def session(ctx, rng, idx, vocab_base):
     vocab = dict(vocab_base, sibling_ids=sibling_ids, forged_ids=forged, root_id=[], last=None)
     before = state_snapshot(svc)
     secrets_before = set(SECRETS)
-    th = threading.Thread(target=serve, daemon=True)
+    th = threading.Thread(target=serve, daemon=True, name="rv-server-conv")
     cli = RawClient(net)
     nmsg = 0
     ended = False
@@ -492,7 +492,8 @@ def session(ctx, rng, idx, vocab_base):
         ok = sib.a.root.ping(("sib", idx)) == ("sib", idx) and sib_item.exposed_k == 1
     except BaseException as e:
         ok = False
-        why = "%s: %s" % (type(e).__name__, str(e)[:300])
+        why = "%s: %s; sibling server thread alive=%s exc=%r a.closed=%s b.closed=%s" % (
+            type(e).__name__, str(e)[:300], sib.thread.is_alive(), sib.server_exc, sib.a.closed, sib.b.closed)
     if not ok:
         ctx.violation("C07/sibling-connection-broken", "a well-behaved connection to the same service stopped working (%s)" % (why,), wit)
     del sib_item
